@@ -12,7 +12,7 @@ RULE = ('random interval pairs (incl. non-multiples and callables of the step), 
         'in float64 on the data the real hooks saw) are compared with the real run; callables are instrumented to log '
         'the step they are called with; the reference K-FAC state machine is the failing-input oracle; '
         'non-trivial = ≥3 steps and intervals not both 1'
-        '; roll-back histories (state kept in memory, trained on, loaded again)')
+        '; roll-back histories (state kept in memory, trained on, loaded again); hyper-parameter-only round trips on the live preconditioner between inverse updates')
 TRUSTED = [
     'Lean 4.33 kernel; axioms audited ⊆ {propext, Classical.choice, Quot.sound}',
     'hand-written model KV.Precond tied to kfac/base_preconditioner.py + kfac/layers/*.py by this correspondence',
@@ -89,6 +89,19 @@ def gen_cfgs(ctx, n):
         cfg.hyper_factors = [{'kl_clip': Fraction(1, 2)}, {'kl_clip': Fraction(0)}]
         it = ['f1'] * cfg.accum + ['s']
         cfg.ops = it + ['h:0'] + it + ['h:1'] + it * 2
+        cfgs.append(cfg)
+    # directed: a hyper-parameter-only round trip on the live preconditioner (state without factors, default
+    # compute_inverses=True) between inverse updates, while the factors are newer than the second-order data: nothing is
+    # recomputed off schedule, nothing is communicated
+    for i, (method, prediv) in enumerate((('inverse', False), ('eigen', False), ('eigen', True))):
+        world = [1, 2, 4][i]
+        cfg = kfacsim.Config(rng, world=world, method=method, prediv=prediv, colocate=True, k=rng.choice([k for k in (1, 2, 4) if world % k == 0]))
+        cfg.hyper_changes = []
+        cfg.hyper['factor_update_steps'] = 1
+        cfg.hyper['inv_update_steps'] = rng.choice([3, 4])
+        cfg.hyper['damping'] = [Fraction(1, 4), Fraction(1, 16), Fraction(1, 2), Fraction(1, 32), Fraction(1), Fraction(1, 8)]
+        it = ['f1'] * cfg.accum + ['s']
+        cfg.ops = it * 2 + ['X'] + it + ['X'] + it * 3
         cfgs.append(cfg)
     while len(cfgs) < n:
         cfg = kfacsim.Config(rng, world=rng.choice([1, 1, 2, 3, 4]))
